@@ -54,6 +54,29 @@ CHECKS = {
              "offsets within the field width, otherwise encode raises. Model is hand-written; tie is differential.",
         tech="Coq proof (list/offset arithmetic, refinement to an id->text view) + differential correspondence",
     ),
+    "C09": dict(
+        text="Coq theorems about a hand model of the five slot allocators (one engine, four tables + the SWNM rebuild), "
+             "with the range constants regenerated from the source: for EVERY occupancy and EVERY batch in EVERY "
+             "iteration order, carried indices are kept or the object is not placed, no slot goes to two objects, every "
+             "slot used was empty, new ids lie in range and are never the reserved Anywhere id; exhaustion raises (MRGN: "
+             "leaves unplaced), a full table never blocks a no-op. Tie: per-object outcome of the real editors under "
+             "forced iteration orders vs the extracted model, plus the property evaluated on the real result.",
+        ref="DESIGN.md 5.7",
+        note="The model sees objects as requests (carry k / fresh / equal-to-existing); the harness derives the request "
+             "from the Python object by the library's own equality rules. Hash collisions between distinct keys excluded.",
+        tech="Coq proof (induction over the request list, for all iteration orders) + constants translator + forced-order correspondence",
+    ),
+    "C14": dict(
+        text="Coq theorem: the allocation engine's result for two iteration orders of the same request set (distinct unused "
+             "carried indices, n index-less objects) agrees on success/raise, keeps carried indices, and hands the SAME "
+             "list of ids to the index-less objects, so outputs differ by a bijection on new slot numbers; fresh ids are "
+             "always a prefix of the free list. Tie/search: every scenario saved in separate interpreters under different "
+             "PYTHONHASHSEED and allocation padding, compared in a canonical form that abstracts only new slot numbers.",
+        ref="DESIGN.md 5.8",
+        note="Order independence of the string table is by construction (lists / OrderedDicts only) and is covered by the "
+             "multi-process comparison, not by a theorem. Known finding F18 (two authored switches claiming one index).",
+        tech="Coq proof (permutation invariance of the allocation engine) + multi-process hash-seed differential",
+    ),
     "C12": dict(
         text="Coq theorems over tables regenerated from the source on every run: complete in-kernel sweeps of all 256 / 65536 "
              "flag numbers and all boolean vectors for the six flag codecs; an unbounded (all n : N) exactness theorem for "
